@@ -90,7 +90,7 @@ def run_case(case):
                     "dirs_create": [key(e) for e in diff.dirs_create], "files_create": [key(e) for e in diff.files_create],
                     "files_chmod": [key(e) for e in diff.files_chmod]}
 
-        old = md5(build(wsd, fs))
+        old = md5(build(wsd, fs)) if case.get("hashed", True) else build(wsd, fs)
         diff = compare(old, new, delete=case["delete"])
         l1 = lists(diff)
         errs = []
@@ -151,7 +151,7 @@ def execute_and_validate(run, cases):
     if errs:
         raise tlc.MachineryError("harness error:\n" + errs[0]["harness_error"])
     doc = [{**{k: r[k] for k in ("ws", "tgt", "avail", "delete", "lists1", "after", "errs", "lists2")},
-            "link": r["case"].get("link", "copy"), "crashed": r["crash"] is not None} for r in recs]
+            "link": r["case"].get("link", "copy"), "hashed": bool(r["case"].get("hashed", True)), "crashed": r["crash"] is not None} for r in recs]
     printed, stats = validate.validate_traces("IndexCheckoutTrace", "IndexCheckoutTrace.cfg", doc, shards=16)
     run.traces += len(recs)
     run.events += 3 * len(recs)
@@ -177,7 +177,7 @@ def make_cases(trees, rng, n, exhaustive=False):
     for i, (w, t) in enumerate(pairs):
         need = sorted({nd["c"] for nd in t.values() if nd["k"] == "f"})
         avail = need if i % 5 else rng.sample(["c1", "c2"], rng.randrange(0, 3))
-        cases.append({"id": i, "ws": w, "tgt": t, "avail": sorted(avail), "delete": i % 4 != 3,
+        cases.append({"id": i, "ws": w, "tgt": t, "avail": sorted(avail), "delete": i % 4 != 3, "hashed": i % 3 != 2,
                       "cls": ["local", "generic"][i % 2], "link": ["copy", "hardlink", "symlink"][i % 3] if i % 7 == 0 else "copy"})
     return cases
 
